@@ -534,11 +534,12 @@ impl ShardCtx {
                     continue;
                 }
             }
-            // Shrink, keeping the failure clause.
+            // Shrink, keeping the failure clause. (A hang costs the full watchdog limit per attempt and leaks
+            // its threads: hangs are reported as found.)
             let original = serde_json::to_value(&case).unwrap();
             let mut best = (case.clone(), f0.clone());
             let mut steps = 0u32;
-            let max_steps = 400u32;
+            let max_steps = if f0.clause == "hang" { 0u32 } else { 400u32 };
             'outer: while tree.simplify() {
                 loop {
                     steps += 1;
@@ -563,7 +564,7 @@ impl ShardCtx {
                     }
                 }
             }
-            if let Some(simpler) = simpler {
+            if let (Some(simpler), false) = (simpler, f0.clause == "hang") {
                 let mut runs = 0u32;
                 'fix: loop {
                     for c in simpler(&best.0) {
